@@ -46,6 +46,9 @@ ChoiceSyms == {[Ses("negotiating", i) EXCEPT !.enc = e, !.comp = c] :
                  c \in {"", "none", "gzip"}}
               \* out-of-order state with an otherwise acceptable choice: fails that check alone
               \cup {[Ses(s, "right") EXCEPT !.enc = "none", !.comp = "none"] : s \in OtherStates("negotiating")}
+              \* the choice of tls with credentials pipelined behind it in the same cleartext write: what was sent
+              \* before the upgrade is not part of the upgraded conversation (the server never looks at it)
+              \cup {[Ses("negotiating", "right") EXCEPT !.enc = "tls", !.comp = "none", !.res = "pipe"]}
               \cup Noise
 UpgradeSyms == {In("tlsup"), Ses("negotiating", "right"), In("eof")}
 CredSyms   == {[Ses("authenticating", i) EXCEPT !.scheme = s, !.ident = ic[1], !.cred = ic[2]] :
